@@ -531,6 +531,8 @@ struct Extractor {
       if (X && !X->isValueDependent() && X->getType()->isIntegralOrEnumerationType() && X->EvaluateAsInt(R, Ctx)) o["value"] = (int64_t)R.Val.getInt().getExtValue();
     } else if (auto *DI = dyn_cast<CXXDefaultInitExpr>(S)) {
       o["field"] = DI->getField()->getNameAsString();
+      // the default member initialiser itself (instantiated for this class), so that value rules can look through it
+      if (const Expr *X = DI->getExpr()) addKid(X);
     } else if (auto *SP = dyn_cast<SizeOfPackExpr>(S)) {
       if (!SP->isValueDependent()) o["value"] = (int64_t)SP->getPackLength();
     }
